@@ -2,6 +2,7 @@ package main
 
 import (
 	"fmt"
+	"go/token"
 	"go/types"
 	"strings"
 
@@ -22,7 +23,10 @@ func runC08(w *World, r *Report) {
 	r2.Exhaustive = true
 	r.Rule("C08-R3", "pre-check dominates the downstream call", "every non-probe dataHandler call of an operation naming a collection is dominated by a WaitObjReady* call made with the operation's own time and names whose skip outcome returns nil; list operations pass only members appended after a not-skipped check", 12)
 	r.Rule("C08-R4", "drop tables follow replayed drops", "dropDatabase/dropCollection/dropPartition store the operation time under the drop key (result 1 of the matching util.Get*InfoKeys on source names) of the matching table before every success return", 3)
-	r.Rule("C08-R5", "level wiring", "Wait{Database,Collection,Partition}Ready: keys from the level's own key function, loads from the level's own table, getObjState(msgTs, load(createKey), load(dropKey), ok, ok)", 15)
+	r.Rule("C08-R5", "level wiring", "Wait{Database,Collection,Partition}Ready: keys from the level's own key function, loads from the level's own table, getObjState(msgTs, load(createKey), load(dropKey), ok, ok); a successful probe records create time = recorded drop time + 1", 18)
+
+	r.Rule("C08-R6", "recorded times are only added", "the three info tables of ChannelWriter are accessed only through Load / LoadWithDefault / Store; drop keys are stored only by the drop operations and the constructor, create keys only after a successful probe: no recorded create or drop time is ever deleted or overwritten from elsewhere", 12)
+	c08R6(w, r)
 
 	states := w.enumConsts(pkgWriter, "InfoState")
 	U, C, D := states["InfoStateUnknown"], states["InfoStateCreated"], states["InfoStateDropped"]
@@ -381,6 +385,8 @@ func runC08(w *World, r *Report) {
 		r.Check(len(kcalls) == 1, "C08-R5", cons+" | one key vocabulary", fn.Pos(), "keys built once by util."+l.keyFn, "keys are not built by exactly one util."+l.keyFn+" call")
 		// after a successful probe the create key is stored with drop+1
 		okStore := false
+		okValue := true
+		badValue := ""
 		eachInstr(fn, func(in ssa.Instruction) {
 			c, ok := in.(*ssa.Call)
 			if !ok || callSym(c.Common()).name != "Store" {
@@ -393,9 +399,31 @@ func runC08(w *World, r *Report) {
 			args := callArgs(c.Common())
 			if extractOf(args[0], keyS, 0) {
 				okStore = true
+				// the recorded create time is drop time + 1: it must depend on the drop record only, never on the probing operation's time
+				okv, bad := mustDerive(args[1], func(v ssa.Value) leafVerdict {
+					if lc, isC := v.(*ssa.Call); isC && callSym(lc.Common()).name == "LoadWithDefault" {
+						rc2 := callRecv(lc.Common())
+						if rc2 != nil && strings.HasSuffix(w.accessPath(rc2), "."+l.table) && extractOf(callArgs(lc.Common())[0], keyS, 1) {
+							return leafGood
+						}
+						return leafBad
+					}
+					if _, isC := v.(*ssa.Const); isC {
+						return leafGood
+					}
+					if bo, isB := v.(*ssa.BinOp); isB && bo.Op == token.ADD {
+						return leafDescend
+					}
+					return leafDescend
+				})
+				if !okv {
+					okValue = false
+					badValue = w.accessPath(bad)
+				}
 			}
 		})
 		r.Check(okStore, "C08-R5", cons+" | probe result recorded", fn.Pos(), "create key stored after a successful probe", "a successful downstream probe is not recorded under the create key")
+		r.Check(okValue, "C08-R5", cons+" | recorded create time", fn.Pos(), "= recorded drop time + constant", "the create time recorded after a probe depends on "+badValue+" (it must be derived from the recorded drop time only; taking the probing operation's time makes older operations on the same incarnation look stale)")
 	}
 }
 
@@ -510,4 +538,59 @@ func listGate(w *World, fn *ssa.Function, wc ssa.CallInstruction, d ssa.CallInst
 		}
 	}
 	return found && good
+}
+
+func c08R6(w *World, r *Report) {
+	tables := map[string]string{"dbInfos": "GetDBInfoKeys", "collectionInfos": "GetCollectionInfoKeys", "partitionInfos": "GetPartitionInfoKeys"}
+	dropFns := map[string]bool{"dropDatabase": true, "dropCollection": true, "dropPartition": true}
+	waitFns := map[string]bool{"WaitDatabaseReady": true, "WaitCollectionReady": true, "WaitPartitionReady": true}
+	for _, fn := range w.RepoFuncs() {
+		if fn.Pkg.Pkg.Path() != pkgWriter {
+			continue
+		}
+		host := fnSym(rootFunc(fn))
+		n := map[string]int{}
+		eachInstr(fn, func(in ssa.Instruction) {
+			ci, ok := in.(ssa.CallInstruction)
+			if !ok {
+				return
+			}
+			rc := callRecv(ci.Common())
+			if rc == nil {
+				return
+			}
+			ap := w.accessPath(rc)
+			tbl := ""
+			for t := range tables {
+				if strings.HasSuffix(ap, "."+t) {
+					tbl = t
+				}
+			}
+			if tbl == "" || !typeIs(rc.Type(), pkgUtil, "Map") {
+				return
+			}
+			m := callSym(ci.Common()).name
+			n[tbl+m]++
+			cons := fmt.Sprintf("%s | %s.%s#%d", shortFn2(fn), tbl, m, n[tbl+m])
+			switch m {
+			case "Load", "LoadWithDefault":
+				r.OK("C08-R6", cons, ci.Pos(), "read")
+			case "Store":
+				key := callArgs(ci.Common())[0]
+				keyS := sym{pkgUtil, "", tables[tbl]}
+				switch {
+				case host.name == "NewChannelWriter":
+					r.OK("C08-R6", cons, ci.Pos(), "initial snapshot of dropped objects")
+				case extractOf(key, keyS, 1):
+					r.Check(dropFns[host.name], "C08-R6", cons, ci.Pos(), "drop time recorded by the drop operation", "a drop time is stored outside the three drop operations")
+				case extractOf(key, keyS, 0):
+					r.Check(waitFns[host.name], "C08-R6", cons, ci.Pos(), "create time recorded after a probe", "a create time is stored outside the Wait*Ready probes")
+				default:
+					r.Fail("C08-R6", cons, ci.Pos(), "Store with a key that is not a result of util."+tables[tbl])
+				}
+			default:
+				r.Fail("C08-R6", cons, ci.Pos(), fmt.Sprintf("%s.%s: recorded create/drop times must never be removed or rewritten (an operation of an older incarnation would no longer be recognised as stale)", tbl, m))
+			}
+		})
+	}
 }
